@@ -79,6 +79,13 @@ func run(r *core.R) {
 	w.pFeedResync = src.Intn(40, "p_feed_resync")
 	w.pDelLost = 150 + src.Intn(350, "p_del_lost")
 	w.allowPodCreateLag = src.Chance(500, "pod_create_lag")
+	if src.Chance(250, "informer_outage_run") {
+		// a run in which the informer falls far behind again and again (watch outages): the collector's cached
+		// view is wrong for longer than the grace period, and only its final live look-up stands between a stale
+		// cache and a live pod's address
+		w.pInfStall = 300 + src.Intn(300, "p_inf_stall_outage")
+		w.infLongStalls = true
+	}
 	switch src.Intn(5, "fault_profile") {
 	case 0: // no datastore/API faults, prompt feeds: only genuine concurrency and lost CNI DELs
 		w.pKlErr, w.pKlConflict, w.pGcErr, w.pGcConflict, w.pGcCommitErr, w.pAPIErr = 0, 0, 0, 0, 0, 0
